@@ -30,7 +30,7 @@ COMPONENTS = {
     "real": ["eolib.data.EoWriter (sanitisation on)", "eolib.data.EoReader (chunked mode)", "codecs"],
     "stub_or_harness": ["sender/receiver scripts (version-skewed read plans)", "expected-value computation"],
 }
-PROBES = ["empty_case_next_to_default", "break_inside_switch_case", "second_receiver_from_slice_zero", "chunked_section_of_structs_only", "unchunked_overread_inside_chunk", "mode_reassigned_mid_stream", "generated_serializer_session", "generated_deserializer_session", "unsanitised_y_in_header", "overread_spanning_integer", "empty_chunk", "string_only_y_diaeresis", "last_chunk_overread",
+PROBES = ["raw_break_byte_in_unsanitised_header", "generated_receiver_of_generated_sender", "empty_case_next_to_default", "break_inside_switch_case", "second_receiver_from_slice_zero", "chunked_section_of_structs_only", "unchunked_overread_inside_chunk", "mode_reassigned_mid_stream", "generated_serializer_session", "generated_deserializer_session", "unsanitised_y_in_header", "overread_spanning_integer", "empty_chunk", "string_only_y_diaeresis", "last_chunk_overread",
           "underread_then_surplus", "first_byte_y_diaeresis", "last_byte_y_diaeresis", "one_char_y_diaeresis"]
 FAULT_KINDS = ["under_read", "over_read"]
 
@@ -273,6 +273,7 @@ def run_generated(plan, env, res, tr, fail):
     inner_cls = getattr(net, g["variant"])
     pkt_cls = srv.TalkTellServerPacket if g["variant"] == "InnerChunked" else srv.TalkReportServerPacket
     kind = g.get("kind", 2)
+    kind0 = kind
     if kind == 1:
         case = pkt_cls.KindData1(note=g.get("note", ""), extra=g["k"] % 253)
     elif kind == 2:
@@ -332,6 +333,29 @@ def run_generated(plan, env, res, tr, fail):
         r.next_chunk()
     if r.remaining != 0:
         return fail("not-at-end", "generated-serializer", f"remaining={r.remaining} after the last chunk", 0)
+    # ... and the generated receiver recovers every chunk's fields (a case whose first field is empty included).
+    # Not when the header (written with sanitisation off, outside the chunked section) holds a y-diaeresis: the
+    # reader looks for the first break from the start of its data, so a raw 0xFF before the chunked section ends
+    # "chunk 0" early for a receiver that does not slice() first - outside this property, which is about data
+    # written with sanitisation on.
+    if "\u00ff" in g["h"]:
+        res.count("probe.raw_break_byte_in_unsanitised_header")
+        return None
+    try:
+        back = pkt_cls.deserialize(EoReader(out))
+        kd = back.kind_data
+        got = [back.h, back.s1, back.inner.a, back.inner.b, back.s2, int(back.kind), back.k, back.s3,
+               None if kd is None else tuple(getattr(kd, n) for n in (("note", "extra") if kind0 == 1 else ("fallback", "fb")))]
+    except Exception as e:  # noqa
+        return fail("field-value", "generated-deserializer", f"{pkt_cls.__name__}.deserialize of its own serialization raised "
+                    f"{type(e).__name__}: {e} (wire {out.hex()})", 0)
+    plain = lambda t: t.encode("cp1252", "replace").decode("cp1252", "replace")      # noqa  (the header is outside <chunked>)
+    want = [plain(g["h"]), image(g["s1"]), image(g["a"]), g["b"], image(g["s2"]), kind0, g["k"], image(g["s3"]),
+            None if kind0 == 2 else (image(g.get("note", "")), g["k"] % 253)]
+    res.count("probe.generated_receiver_of_generated_sender")
+    if got != want:
+        return fail("field-value", "generated-deserializer", f"{pkt_cls.__name__}.deserialize of its own serialization gave {got!r}, "
+                    f"expected {want!r} (wire {out.hex()})", 0)
     return None
 
 
